@@ -224,6 +224,8 @@ fn main() {
         #[cfg(feature = "derive")]
         "derive" => derive_gen::run(),
         "teardown" => probes2::teardown(),
+        "clonefrom" => probes2::clone_from_probe(),
+        "bigbuf" => probes2::bigbuf(),
         "policy" => probes::policy(),
         "lists" => probes::lists(),
         other => {
